@@ -2,6 +2,7 @@ package main
 
 import (
 	"fmt"
+	"go/types"
 	"os"
 	"strings"
 )
@@ -123,6 +124,29 @@ func init() {
 		seen := map[string]bool{}
 		for _, w := range ws {
 			s := wordString(w)
+			if !seen[s] {
+				seen[s] = true
+				fmt.Println("  ", s)
+			}
+		}
+	}
+}
+
+func init() {
+	debugHooks["cw"] = func(p *Prog, what string) {
+		t := strings.TrimPrefix(what, "cw:")
+		ii := p.Interp()
+		m := NewInterpModel(p, "eval/"+t)
+		m.EmitTests = true
+		m.SignalsFor = func(types.Type) []int { return []int{0} }
+		m.Explore(ii.Eval, []AV{Sym("i"), Sym("e"), Sym("env"), Sym("isRepl")}, func(st *State) {
+			st.Facts["type:e"] = StrV(t)
+		})
+		ws, ok := m.G.Words(3000)
+		fmt.Println("ok:", ok, len(ws))
+		seen := map[string]bool{}
+		for _, w := range ws {
+			s := normName(wordStringQuiet(w))
 			if !seen[s] {
 				seen[s] = true
 				fmt.Println("  ", s)
